@@ -342,22 +342,24 @@ theorem erunI_unmappable (last : Bool) : ∀ (items : List (Nat × Nat)) (s : E.
       · simp only [List.cons_append]; rw [← h1]
       · simp only [widthSum_cons]; omega
 
-/-- after a `last` call that returned `InputEmpty` the encoder is in the state the end-of-stream
-block leaves -/
+/-- after a `last` call that returned `InputEmpty` the end-of-stream block has been run: the encoder
+is in the state it leaves and its bytes are the end of the output -/
 theorem erun_inputEmpty_last_st : ∀ (items : List (Nat × Nat)) (s : E.σ) (b : Budget),
-    (erun E true s items b).res = .inputEmpty → ∃ s', (erun E true s items b).st = (E.eof s').2 := by
+    (erun E true s items b).res = .inputEmpty →
+    ∃ s' o, (erun E true s items b).st = (E.eof s').2 ∧ (erun E true s items b).out = o ++ (E.eof s').1 := by
   intro items
   induction items with
   | nil =>
     intro s b h
     simp only [erun, if_true] at h ⊢
     split
-    · exact ⟨s, rfl⟩
     · rename_i he
-      simp only [he, if_false] at h
+      exact ⟨s, [], rfl, by rw [List.isEmpty_iff.mp he]; rfl⟩
+    · rename_i he
+      simp only [he] at h
       split
       · rename_i hz; simp [hz] at h
-      · exact ⟨s, rfl⟩
+      · exact ⟨s, [], rfl, rfl⟩
   | cons it tl ih =>
     intro s b h
     obtain ⟨c, w⟩ := it
@@ -367,7 +369,8 @@ theorem erun_inputEmpty_last_st : ∀ (items : List (Nat × Nat)) (s : E.σ) (b 
     | unmappable st out u => simp [hres] at h
     | done st out b' =>
       simp only [hres] at h ⊢
-      exact ih st b' h
+      obtain ⟨s', o, h1, h2⟩ := ih st b' h
+      exact ⟨s', out ++ o, h1, by rw [h2, List.append_assoc]⟩
 
 /-- a raw call on a source buffer, seen through `erunI` -/
 theorem ecall_eq_erunI (utf16 : Bool) (s : E.σ) (src : List Nat) (last : Bool) (b : Budget) :
@@ -736,5 +739,186 @@ theorem variant_elaws (v : Gen.Variant) : ELaws (efamOfVariant v) := by
   cases v
   case iso2022Jp => intro s; cases s <;> rfl
   all_goals (intro s; rfl)
+
+/-! ### `total_read` stays on a character boundary -/
+
+/-- `n` is a character boundary of the buffer: it is the width of a prefix `pre` of the buffer's
+characters, and the buffer re-sliced at `n` yields exactly the characters after `pre` (so `n` is never
+inside a surrogate pair or a UTF-8 sequence) -/
+def Bnd (utf16 : Bool) (src : List Nat) (n : Nat) : Prop :=
+  ∃ pre, itemsOfSrc utf16 src = pre ++ itemsOfSrc utf16 (src.drop n) ∧ n = widthSum pre
+
+theorem bnd_zero (utf16 : Bool) (src : List Nat) : Bnd utf16 src 0 := ⟨[], by simp, rfl⟩
+
+theorem Bnd.le {utf16 : Bool} {src : List Nat} {n : Nat} (h : Bnd utf16 src n) (hsrc : SrcOK utf16 src) :
+    n ≤ src.length := by
+  obtain ⟨pre, h1, h2⟩ := h
+  rw [h2]
+  exact widthSum_prefix_le utf16 src hsrc pre _ h1
+
+theorem Bnd.mem {utf16 : Bool} {src : List Nat} {n : Nat} (h : Bnd utf16 src n) :
+    ∀ it ∈ itemsOfSrc utf16 (src.drop n), it ∈ itemsOfSrc utf16 src := by
+  obtain ⟨pre, h1, _⟩ := h
+  intro it hit
+  rw [h1]
+  exact List.mem_append_right _ hit
+
+variable (E : EFam)
+
+/-- a raw call made at a character boundary ends at a character boundary -/
+theorem bnd_step (utf16 last : Bool) (src : List Nat) (s : E.σ) (b : Budget) (tr : Nat)
+    (h : Bnd utf16 src tr) : Bnd utf16 src (tr + (ecall E utf16 s (src.drop tr) last b).read) := by
+  obtain ⟨pre, h1, h2⟩ := h
+  obtain ⟨pre', h3, h4⟩ := erunI_split E last (itemsOfSrc utf16 (src.drop tr)) s b
+  have h5 := ecall_rest E utf16 s (src.drop tr) last b
+  rw [List.drop_drop] at h5
+  refine ⟨pre ++ pre', ?_, ?_⟩
+  · rw [h5, List.append_assoc, ← h3]
+    exact h1
+  · rw [widthSum_append, ← h2, ecall_eq_erunI, h4]
+
+/-- a raw call made at a character boundary that returns `InputEmpty` consumed the buffer to its end -/
+theorem bnd_inputEmpty (utf16 last : Bool) (src : List Nat) (s : E.σ) (b : Budget) (tr : Nat)
+    (h : Bnd utf16 src tr) (hsrc : SrcOK utf16 src)
+    (hres : (ecall E utf16 s (src.drop tr) last b).res = .inputEmpty) :
+    tr + (ecall E utf16 s (src.drop tr) last b).read = src.length := by
+  obtain ⟨pre, h1, h2⟩ := h
+  obtain ⟨pre', h3, h4⟩ := erunI_split E last (itemsOfSrc utf16 (src.drop tr)) s b
+  rw [ecall_eq_erunI] at hres ⊢
+  rw [erunI_inputEmpty E last _ s b hres, List.append_nil] at h3
+  have h5 := (itemsOfSrc_ok utf16 src hsrc).2
+  rw [h1, widthSum_append, ← h2, h3] at h5
+  omega
+
+/-- what a raw call made at a character boundary of a valid buffer reports as unmappable is a scalar
+value -/
+theorem bnd_unmappable_scalar (hrep : ReportsOk E) (utf16 last : Bool) (src : List Nat) (s : E.σ) (b : Budget)
+    (tr : Nat) (h : Bnd utf16 src tr) (hsrc : SrcOK utf16 src) (u : Nat)
+    (hres : (ecall E utf16 s (src.drop tr) last b).res = .unmappable u) : isScalar u = true := by
+  rw [ecall_eq_erunI] at hres
+  obtain ⟨pre, c, w, s0, h1, _, h3, _⟩ := erunI_unmappable E last _ s b u hres
+  have hmem : (c, w) ∈ itemsOfSrc utf16 src := h.mem (c, w) (by rw [h1]; simp)
+  exact hrep.scalar s0 c u h3 (itemsOfSrc_scalar utf16 src hsrc (c, w) hmem)
+
+/-! ### facts about the loop, by induction over `GoRel` -/
+
+theorem go_inner_mono {utf16 last : Bool} {src : List Nat} {eff : Nat} {s : E.σ} {budgets : List Budget}
+    {tr tw : Nat} {acc : List Nat} {had : Bool} {inner : List (Nat × Nat × ERes × Nat)} {t : EReplRes E.σ}
+    (h : GoRel E utf16 last src eff s budgets tr tw acc had inner t) : ∀ x ∈ inner, x ∈ t.inner := by
+  induction h with
+  | stop s budgets tr tw acc had inner r hr hres => intro x hx; exact List.mem_append_left _ hx
+  | unmapEnd s budgets tr tw acc had inner r c hr hres hfull hend =>
+    intro x hx; exact List.mem_append_left _ hx
+  | unmapFull s budgets tr tw acc had inner r c hr hres hfull hend =>
+    intro x hx; exact List.mem_append_left _ hx
+  | unmapCont s budgets tr tw acc had inner r c t hr hres hroom hnext ih =>
+    intro x hx; exact ih x (List.mem_append_left _ hx)
+
+/-- the with-replacement call never reports `Unmappable` -/
+theorem go_res {utf16 last : Bool} {src : List Nat} {eff : Nat} {s : E.σ} {budgets : List Budget}
+    {tr tw : Nat} {acc : List Nat} {had : Bool} {inner : List (Nat × Nat × ERes × Nat)} {t : EReplRes E.σ}
+    (h : GoRel E utf16 last src eff s budgets tr tw acc had inner t) :
+    t.res = .inputEmpty ∨ t.res = .outputFull := by
+  induction h with
+  | stop s budgets tr tw acc had inner r hr hres => exact hres
+  | unmapEnd => exact Or.inl rfl
+  | unmapFull => exact Or.inr rfl
+  | unmapCont s budgets tr tw acc had inner r c t hr hres hroom hnext ih => exact ih
+
+/-- `total_read` ends on a character boundary and never decreases -/
+theorem go_bnd {utf16 last : Bool} {src : List Nat} {eff : Nat} {s : E.σ} {budgets : List Budget}
+    {tr tw : Nat} {acc : List Nat} {had : Bool} {inner : List (Nat × Nat × ERes × Nat)} {t : EReplRes E.σ}
+    (h : GoRel E utf16 last src eff s budgets tr tw acc had inner t) :
+    Bnd utf16 src tr → Bnd utf16 src t.read ∧ tr ≤ t.read := by
+  induction h with
+  | stop s budgets tr tw acc had inner r hr hres =>
+    intro hb; subst hr
+    exact ⟨bnd_step E utf16 last src s _ tr hb, Nat.le_add_right _ _⟩
+  | unmapEnd s budgets tr tw acc had inner r c hr hres hfull hend =>
+    intro hb; subst hr
+    exact ⟨bnd_step E utf16 last src s _ tr hb, Nat.le_add_right _ _⟩
+  | unmapFull s budgets tr tw acc had inner r c hr hres hfull hend =>
+    intro hb; subst hr
+    exact ⟨bnd_step E utf16 last src s _ tr hb, Nat.le_add_right _ _⟩
+  | unmapCont s budgets tr tw acc had inner r c t hr hres hroom hnext ih =>
+    intro hb; subst hr
+    have := ih (bnd_step E utf16 last src s _ tr hb)
+    exact ⟨this.1, by omega⟩
+
+/-- `InputEmpty` from the with-replacement call: the whole buffer was consumed -/
+theorem go_inputEmpty {utf16 last : Bool} {src : List Nat} {eff : Nat} {s : E.σ} {budgets : List Budget}
+    {tr tw : Nat} {acc : List Nat} {had : Bool} {inner : List (Nat × Nat × ERes × Nat)} {t : EReplRes E.σ}
+    (h : GoRel E utf16 last src eff s budgets tr tw acc had inner t) (hsrc : SrcOK utf16 src) :
+    Bnd utf16 src tr → t.res = .inputEmpty → t.read = src.length := by
+  induction h with
+  | stop s budgets tr tw acc had inner r hr hres =>
+    intro hb hi; subst hr
+    exact bnd_inputEmpty E utf16 last src s _ tr hb hsrc hi
+  | unmapEnd s budgets tr tw acc had inner r c hr hres hfull hend =>
+    intro _ _; exact hend.1
+  | unmapFull s budgets tr tw acc had inner r c hr hres hfull hend =>
+    intro _ hi; cases hi
+  | unmapCont s budgets tr tw acc had inner r c t hr hres hroom hnext ih =>
+    intro hb hi; subst hr
+    exact ih (bnd_step E utf16 last src s _ tr hb) hi
+
+/-- the output of the with-replacement loop fits: every inner call writes into
+`dst[total_written..effective_dst_len]`, and a numeric character reference fits into the reserve -/
+theorem go_out_le {utf16 last : Bool} {src : List Nat} {eff : Nat} {s : E.σ} {budgets : List Budget}
+    {tr tw : Nat} {acc : List Nat} {had : Bool} {inner : List (Nat × Nat × ERes × Nat)} {t : EReplRes E.σ}
+    (h : GoRel E utf16 last src eff s budgets tr tw acc had inner t) (hsrc : SrcOK utf16 src)
+    (hrep : ReportsOk E) :
+    InnerAdmissible t.inner → Bnd utf16 src tr → acc.length = tw → tw ≤ eff →
+    t.out.length ≤ eff + Gen.ncrExtra := by
+  induction h with
+  | stop s budgets tr tw acc had inner r hr hres =>
+    intro hadm _ hacc hle
+    have := (hadm (eff - tw, r.out.length, r.res, r.stopNeed) (by simp)).1
+    simp only [List.length_append] at this ⊢
+    omega
+  | unmapEnd s budgets tr tw acc had inner r c hr hres hfull hend =>
+    intro hadm hb hacc hle
+    have h1 := (hadm (eff - tw, r.out.length, r.res, r.stopNeed) (by simp)).1
+    subst hr
+    have h2 := ncr_length_le c (isScalar_lt c (bnd_unmappable_scalar E hrep utf16 last src s _ tr hb hsrc c hres))
+    simp only [List.length_append] at h1 ⊢
+    omega
+  | unmapFull s budgets tr tw acc had inner r c hr hres hfull hend =>
+    intro hadm hb hacc hle
+    have h1 := (hadm (eff - tw, r.out.length, r.res, r.stopNeed) (by simp)).1
+    subst hr
+    have h2 := ncr_length_le c (isScalar_lt c (bnd_unmappable_scalar E hrep utf16 last src s _ tr hb hsrc c hres))
+    simp only [List.length_append] at h1 ⊢
+    omega
+  | unmapCont s budgets tr tw acc had inner r c t hr hres hroom hnext ih =>
+    intro hadm hb hacc hle
+    subst hr
+    apply ih hadm (bnd_step E utf16 last src s _ tr hb)
+    · simp only [List.length_append]; omega
+    · omega
+
+/-- when the encoder never reports an unmappable character the loop is its first round -/
+theorem go_out_le_no_unmappable {utf16 last : Bool} {src : List Nat} {eff : Nat} {s : E.σ}
+    {budgets : List Budget} {tr tw : Nat} {acc : List Nat} {had : Bool}
+    {inner : List (Nat × Nat × ERes × Nat)} {t : EReplRes E.σ}
+    (h : GoRel E utf16 last src eff s budgets tr tw acc had inner t)
+    (hno : ∀ s c, (E.step s c).unmappable = none) :
+    InnerAdmissible t.inner → acc.length = tw → tw ≤ eff → t.out.length ≤ eff := by
+  have hnever : ∀ (s : E.σ) (src' : List Nat) (b : Budget) (c : Nat),
+      (ecall E utf16 s src' last b).res ≠ .unmappable c := by
+    intro s src' b c
+    exact erun_no_unmappable E last _ s b c (fun it _ s => hno s it.1)
+  induction h with
+  | stop s budgets tr tw acc had inner r hr hres =>
+    intro hadm hacc hle
+    have := (hadm (eff - tw, r.out.length, r.res, r.stopNeed) (by simp)).1
+    simp only [List.length_append] at this ⊢
+    omega
+  | unmapEnd s budgets tr tw acc had inner r c hr hres hfull hend =>
+    subst hr; exact absurd hres (hnever _ _ _ _)
+  | unmapFull s budgets tr tw acc had inner r c hr hres hfull hend =>
+    subst hr; exact absurd hres (hnever _ _ _ _)
+  | unmapCont s budgets tr tw acc had inner r c t hr hres hroom hnext ih =>
+    subst hr; exact absurd hres (hnever _ _ _ _)
 
 end EncodingRs.Lemmas.EncSide
